@@ -195,3 +195,114 @@ def fired(events):
         if inj not in ("-", "short-noop"):
             out.append(ev)
     return out
+
+
+class ForkServer:
+    """One parked copy of the binary (argv fixed) that forks a fresh child per run directory -- see procsim.c.
+    Results have the same shape as run_case(); stdout/stderr/stdin are files instead of pipes."""
+
+    def __init__(self, case):
+        import select  # noqa: F401
+        self.case = case
+        binary = build.COMPLGEN if case.get("binary", "complgen") == "complgen" else build.HARNESS
+        self.ctl_r, self.ctl_w = os.pipe()
+        self.st_r, self.st_w = os.pipe()
+        env = dict(case.get("env", {}))
+        env["LD_PRELOAD"] = build.PROCSIM_SO
+        env["PROCSIM_PLAN"] = ".plan"
+        env["PROCSIM_LOG"] = ".elog"
+        env["PROCSIM_FORKSERVER"] = "%d,%d" % (self.ctl_r, self.st_w)
+        _set_process_attrs(case.get("stack_kb", 8192), case.get("aslr", False))
+        self.root = tempfile.mkdtemp(prefix="vfs-", dir=scratch_root())
+        self.p = subprocess.Popen([binary] + list(case["argv"]), cwd=self.root, env=env, stdin=subprocess.DEVNULL, stdout=subprocess.DEVNULL,
+                                  stderr=subprocess.DEVNULL, pass_fds=(self.ctl_r, self.st_w))
+        os.close(self.ctl_r)
+        os.close(self.st_w)
+        self.buf = b""
+        self.n = 0
+
+    def _readline(self, timeout):
+        import select
+        while b"\n" not in self.buf:
+            r, _, _ = select.select([self.st_r], [], [], timeout)
+            if not r:
+                return None
+            chunk = os.read(self.st_r, 4096)
+            if not chunk:
+                raise build.HarnessError("fork server died")
+            self.buf += chunk
+        line, self.buf = self.buf.split(b"\n", 1)
+        return line.decode()
+
+    def run(self, plan, timeout=20.0):
+        case = self.case
+        self.n += 1
+        d = os.path.join(self.root, "r%d" % self.n)
+        os.mkdir(d)
+        try:
+            inode_before = {}
+            for name, text in case.get("files", {}).items():
+                with open(os.path.join(d, name), "wb") as f:
+                    f.write(dec(text))
+            for name in case.get("watch", []):
+                p = os.path.join(d, name)
+                inode_before[name] = os.stat(p).st_ino if os.path.exists(p) else None
+            lines = ["role %s %s" % (role, path) for role, path in case.get("roles", {}).items()] + list(plan)
+            with open(os.path.join(d, ".plan"), "w") as f:
+                f.write("\n".join(lines) + "\n")
+            if case.get("stdin") is not None:
+                with open(os.path.join(d, ".stdin"), "wb") as f:
+                    f.write(dec(case["stdin"]))
+            os.write(self.ctl_w, (d + "\n").encode())
+            pl = self._readline(10.0)
+            if pl is None or not pl.startswith("P "):
+                raise build.HarnessError("fork server protocol error: %r" % pl)
+            pid = int(pl[2:])
+            sl = self._readline(timeout)
+            timed_out = False
+            if sl is None:
+                timed_out = True
+                try:
+                    os.kill(pid, 9)
+                except ProcessLookupError:
+                    pass
+                sl = self._readline(10.0)
+            status = int(sl[2:]) if sl and sl.startswith("S ") else 0
+            rc = os.waitstatus_to_exitcode(status)
+
+            def rd(name):
+                try:
+                    with open(os.path.join(d, name), "rb") as f:
+                        return enc(f.read())
+                except FileNotFoundError:
+                    return ""
+            files_after, inode_after = {}, {}
+            for name in case.get("watch", []):
+                p_ = os.path.join(d, name)
+                if os.path.exists(p_):
+                    files_after[name] = rd(name)
+                    inode_after[name] = os.stat(p_).st_ino
+                else:
+                    files_after[name] = None
+                    inode_after[name] = None
+            raw = rd(".elog")
+            return {"exit": rc, "timeout": timed_out, "stdout": rd(".stdout"), "stderr": rd(".stderr"), "files_after": files_after,
+                    "inode_before": inode_before, "inode_after": inode_after, "events": parse_events(raw), "raw_log": raw}
+        finally:
+            shutil.rmtree(d, ignore_errors=True)
+
+    def close(self):
+        try:
+            os.close(self.ctl_w)
+        except OSError:
+            pass
+        try:
+            self.p.wait(timeout=5)
+        except subprocess.TimeoutExpired:
+            self.p.kill()
+            self.p.wait()
+        try:
+            os.close(self.st_r)
+        except OSError:
+            pass
+        shutil.rmtree(self.root, ignore_errors=True)
